@@ -16,6 +16,7 @@ import ast
 
 from sa import core
 from sa import fieldtypes
+from sa import formula
 from sa import pat
 from sa import rules_qn
 from sa import pycfg
@@ -186,10 +187,69 @@ def check(model, rep, tier):
       t = core.norm(loops[0].target)
       ok = pat.has(loops[0], "if hasattr(%s, 'ctx'):\n  %s.visit(%s)" % (
           t, b1['_A_'], t)) or pat.has(loops[0], '%s.visit(%s)' % (b1['_A_'], t))
+      # the loop itself runs for every non-empty replacement: whether one
+      # element has a ctx says nothing about the others (a Call next to a Name)
+      pc = formula.path_condition(vn.node, loops[0])
+      ok = ok and not any(pol != 'C' and 'hasattr(' in core.norm(tst) for pol, tst in pc)
   rep.check(ok, 'TREE-CTX', '%s:adjusts-every-replacement' % vn.site,
             'each replacement that has a ctx must be adjusted to the '
             'placeholder\'s context', line=vn.node.lineno,
             witness='a name placeholder in a Store position')
+  # parallel_walk (source map): list fields may hold None (kw_defaults of a
+  # keyword-only parameter without default, the key of `**d` in a dict display)
+  pw = model.func(AU, 'parallel_walk')
+  whiles = [w for w in ast.walk(pw.node) if isinstance(w, ast.While)]
+  okw = len(whiles) == 1
+  factsw = {}
+  if okw:
+    wl = whiles[0]
+    pops = [a.targets[0].id for a in wl.body if isinstance(a, ast.Assign) and isinstance(
+        a.value, ast.Call) and isinstance(a.value.func, ast.Attribute) and
+            a.value.func.attr == 'pop' and isinstance(a.targets[0], ast.Name)]
+    okw = len(pops) == 2
+  if okw:
+    nv, ov = pops
+
+    def none_case(e):
+      """truth of a test when both popped values are None"""
+      if isinstance(e, ast.BoolOp):
+        vs = [none_case(v) for v in e.values]
+        if any(v is None for v in vs):
+          return None
+        return all(vs) if isinstance(e.op, ast.And) else any(vs)
+      if isinstance(e, ast.UnaryOp) and isinstance(e.op, ast.Not):
+        v = none_case(e.operand)
+        return None if v is None else (not v)
+      t = core.norm(e)
+      if t.startswith('isinstance(%s, ' % nv) or t.startswith('isinstance(%s, ' % ov):
+        return 'NoneType' in t
+      if t in ('%s is None' % nv, '%s is None' % ov):
+        return True
+      if t in ('%s is not None' % nv, '%s is not None' % ov):
+        return False
+      if t in ('%s.__class__.__name__ != %s.__class__.__name__' % (nv, ov),
+               'type(%s) != type(%s)' % (nv, ov), 'type(%s) is not type(%s)' % (nv, ov)):
+        return False
+      return None
+    raising = [i for i in wl.body if isinstance(i, ast.If) and any(
+        isinstance(x, ast.Raise) for b in i.body for x in ast.walk(b))]
+    verdicts = [none_case(i.test) for i in raising]
+    # ... and the None pair is skipped before its fields are looked at
+    fields_loop = [i for i, st in enumerate(wl.body) if isinstance(st, ast.For) and
+                   core.norm(st.iter) == nv + '._fields']
+    skipped = False
+    if fields_loop:
+      for st in wl.body[:fields_loop[0]]:
+        if isinstance(st, ast.If) and none_case(st.test) is True and any(
+            isinstance(x, ast.Continue) for x in st.body):
+          skipped = True
+    factsw = {'raise_tests_on_None_pair': verdicts, 'skipped_before_fields': skipped}
+    okw = bool(raising) and all(v is False for v in verdicts) and skipped
+  rep.check(okw, 'TREE-TEXT', '%s:none-elements' % pw.site,
+            'two trees that both hold None at the same place of a list field are '
+            'consistent: parallel_walk must neither reject the pair nor look at '
+            'its fields', factsw, line=pw.node.lineno,
+            witness='def f(a, *, key): ...  /  {**a, "k": 1}')
   ca = model.cls(TPL, 'ContextAdjuster')
   cv = ca.methods.get('visit')
   if cv is None:
